@@ -3,8 +3,20 @@ import SeataModel.TM.Executor
 namespace Seata.Driver.C04
 open Seata.TM Seata.Driver
 
-def parseReply : String → Option Reply
-  | "ok" => some .ok | "failed" => some .failed | "transport" => some .transport | _ => none
+/-- `ok`, `failed`, `transport`, or a wire form `w<result code 0|1>.<global status>` -/
+def parseReply (t : String) : Option Reply :=
+  match t with
+  | "ok" => some .ok | "failed" => some .failed | "transport" => some .transport
+  | _ =>
+    if t.startsWith "w" then
+      match (sdrop t 1).splitOn "." with
+      | [rc, st] =>
+        match rc.toNat?, st.toNat? with
+        | some 0, some st => some (replyOf .failed st)
+        | some 1, some st => some (replyOf .success st)
+        | _, _ => none
+      | _ => none
+    else none
 def parseOutcome : String → Option Outcome
   | "nil" => some .ok | "err" => some .err | "panic" => some .panic | _ => none
 def showReq : Req → String | .begin => "B" | .commit => "C" | .rollback => "R"
